@@ -30,7 +30,19 @@ def parseObjs : Sexp → Option (List Obj)
 
 def natList (xs : List Nat) : String := String.join (xs.map fun x => " " ++ toString x)
 
+def parseMarked : Sexp → Option (List Nat)
+  | .list (.atom "marked" :: ms) => ms.mapM Sexp.toNat?
+  | _ => none
+
 def handle : List Sexp → String
+  | [.atom "collect", t, objs, marked] =>
+    match parsePath t, parseObjs objs, parseMarked marked with
+    | some t, some os, some ms =>
+      let s := State.ofArray os.toArray
+      match freedByM s t ms with
+      | some f => "(freed" ++ natList f ++ ")"
+      | none => "out-of-fuel"
+    | _, _, _ => "bad-request"
   | [.atom "collect", t, objs] =>
     match parsePath t, parseObjs objs with
     | some t, some os =>
